@@ -26,6 +26,8 @@ def gen(rng, tier):
     n = 90 if tier == "quick" else 3000
     for t in range(n):
         ns, nv = rng.randint(2, 8), rng.randint(1, 6)
+        if rng.random() < 0.06:
+            ns, nv = rng.randint(17, 40), rng.randint(6, 30)  # medium sizes
         base = [[rng.randint(0, 1), rng.randint(0, 1)] for _ in range(ns)]
         data = [[None] * nv for _ in range(ns)]
         for j in range(nv):
